@@ -28,6 +28,7 @@ METHOD_BADCHAR_RE = re.compile("[a-z#]")
 # usually 1.0 or 1.1 - RFC9112 permits restricting to single-digit versions
 VERSION_RE = re.compile(r"HTTP/(\d)\.(\d)")
 RFC9110_5_5_INVALID_AND_DANGEROUS = re.compile(r"[\0\r\n]")
+REQUEST_TARGET_CTL_RE = re.compile(r"[\x00-\x20\x7f]")
 
 
 class Message:
@@ -447,6 +448,11 @@ class Request(Message):
         # 4. asterisk-form, which is an asterisk (`\x2A`)
         # => manually reject one always invalid URI: empty
         if len(self.uri) == 0:
+            raise InvalidRequestLine(bytes_to_str(line_bytes))
+        # control characters are never valid in a request-target, and
+        # urlsplit() silently drops some of them (TAB, CR, LF, leading C0):
+        # PATH_INFO / QUERY_STRING would no longer match what was sent
+        if REQUEST_TARGET_CTL_RE.search(self.uri):
             raise InvalidRequestLine(bytes_to_str(line_bytes))
 
         try:
